@@ -103,6 +103,9 @@ def _exp(x):
     p = V.PATH[0]
     if p is not None:
         p.assume(res > 0)
+        # exp is <= 1 on non-positive arguments and exp(0) == 1 (instances at the use site)
+        p.assume(V.implies(V.compare("<=", x, 0), V.compare("<=", res, 1)))
+        p.assume(V.implies(V.compare("==", x, 0), V.compare("==", res, 1)))
     return res
 
 
@@ -461,7 +464,14 @@ B["NotImplemented"] = NotImplemented
 B["Ellipsis"] = Ellipsis
 B["object"] = TypeTag("object", lambda x: True)
 B["type"] = lambda x: (x.cls if isinstance(x, X.Obj) else type(x))
-B["callable"] = lambda x: isinstance(x, (X.RepoFunc, X.Closure, X.BoundMethod, X.RepoClass)) or callable(x)
+@bi("callable")
+@wants_interp
+def _callable(interp, x):
+    if isinstance(x, (X.RepoFunc, X.Closure, X.BoundMethod, X.RepoClass)):
+        return True
+    if isinstance(x, X.Obj):
+        return isinstance(x.cls, X.RepoClass) and x.cls.lookup(interp, "__call__") is not None
+    return callable(x)
 B["id"] = id
 
 
@@ -877,8 +887,20 @@ def _is_ndarray(x):
 
 
 REG["numpy.ndarray"] = TypeTag("ndarray", _is_ndarray)
+def _np_compare_ufunc(_nm, _op):
+    @wants_interp
+    def f(interp, a, b, out=None, dtype=None, **kw):
+        # numpy 2.x: comparison ufuncs only have boolean (and object) output loops; any other `dtype=` raises
+        # "No loop matching the specified signature and casting was found" (measured on numpy 2.5)
+        if dtype is not None and _dt(dtype) != "bool":
+            raise X.PyRaise(interp.make_exc(
+                "TypeError", f"No loop matching the specified signature and casting was found for ufunc {_nm}"))
+        return interp.cmp(_op, a, b)
+    return f
+
+
 for _nm, _op in (("greater_equal", ">="), ("less_equal", "<="), ("greater", ">"), ("less", "<")):
-    REG["numpy." + _nm] = wants_interp((lambda _op: lambda interp, a, b, **kw: interp.cmp(_op, a, b))(_op))
+    REG["numpy." + _nm] = _np_compare_ufunc(_nm, _op)
 REG["numpy.number"] = TypeTag("number", lambda x: is_num(x))
 REG["numpy.integer"] = TypeTag("integer", _is_intlike)
 REG["numpy.floating"] = TypeTag("floating", _is_floatlike)
@@ -1273,10 +1295,15 @@ def _arr_method(arr, name):
         return lambda axis=None, **kw: _reduce_concrete(a, "max", axis)
     if name == "min":
         return lambda axis=None, **kw: _reduce_concrete(a, "min", axis)
-    if name == "all":
-        return lambda axis=None, **kw: np_all(a, axis)
-    if name == "any":
-        return lambda axis=None, **kw: np_any(a, axis)
+    if name in ("all", "any"):
+        def _allany(axis=None, _n=name, **kw):
+            try:
+                return (np_all if _n == "all" else np_any)(a, axis)
+            except Unsupported:
+                if axis is not None:
+                    raise
+                return V.fresh("arr_" + _n, "bool")       # reduction over a symbolic extent: an uninterpreted bool
+        return _allany
     if name == "dot":
         return lambda b: np_dot(a, b)
     if name == "reshape":
@@ -1444,8 +1471,11 @@ def _getattr_hook(interp, obj, name):
             return obj.name if isinstance(obj, X.Closure) else obj.node.name
         if name in ("__module__", "__qualname__", "__doc__"):
             return ""
-    if callable(obj) and name == "__name__" and hasattr(obj, "__name__"):
-        return obj.__name__
+    if callable(obj) and not isinstance(obj, type) and name.startswith("__") and name.endswith("__"):
+        try:
+            return getattr(obj, name)
+        except AttributeError:
+            raise X.PyRaise(interp.make_exc("AttributeError", f"function has no attribute {name}"))
     if isinstance(obj, DType):
         if name == "kind":
             return {"real": "f", "int": "i", "bool": "b", "complex": "c"}[obj.kind]
@@ -1734,3 +1764,70 @@ def _atleast_2d(x):
 
 REG["numpy.atleast_2d"] = _atleast_2d
 REG["dask.array.compute"] = lambda *a, **k: tuple(a)
+
+
+# inspect.signature (only what acryo.pipe._curry uses: the kinds of the parameters) -----------------------------
+class _ParamV:
+    _pyvc_native = True
+    POSITIONAL_ONLY, POSITIONAL_OR_KEYWORD, VAR_POSITIONAL, KEYWORD_ONLY, VAR_KEYWORD = 0, 1, 2, 3, 4
+
+    def __init__(self, name, kind):
+        self.name, self.kind = name, kind
+
+
+class _SigV:
+    _pyvc_native = True
+
+    def __init__(self, params):
+        self.parameters = {p.name: p for p in params}
+
+
+def _inspect_signature(f):
+    import ast as _ast
+    if hasattr(f, "_pyvc_sig"):
+        return _SigV([_ParamV(n, _ParamV.POSITIONAL_OR_KEYWORD) for n in f._pyvc_sig])
+    node = None
+    if isinstance(f, X.Closure):
+        node = f.node
+    elif isinstance(f, X.RepoFunc):
+        node = f.node
+    elif isinstance(f, X.BoundMethod):
+        node = f.func.node
+    if node is None:
+        raise Unsupported("inspect.signature of this callable")
+    a = node.args
+    ps = [_ParamV(p.arg, _ParamV.POSITIONAL_ONLY) for p in a.posonlyargs]
+    ps += [_ParamV(p.arg, _ParamV.POSITIONAL_OR_KEYWORD) for p in a.args]
+    if isinstance(f, X.BoundMethod):
+        ps = ps[1:]
+    if a.vararg:
+        ps.append(_ParamV(a.vararg.arg, _ParamV.VAR_POSITIONAL))
+    ps += [_ParamV(p.arg, _ParamV.KEYWORD_ONLY) for p in a.kwonlyargs]
+    if a.kwarg:
+        ps.append(_ParamV(a.kwarg.arg, _ParamV.VAR_KEYWORD))
+    return _SigV(ps)
+
+
+REG["inspect.signature"] = _inspect_signature
+REG["inspect.getargs"] = lambda code: (_ for _ in ()).throw(Unsupported("inspect.getargs"))
+B["complex"] = TypeTag("complex", lambda x: isinstance(x, complex))
+B["format"] = lambda v, spec="": X._to_str(v)
+
+
+# scipy.ndimage filters / morphology: uninterpreted results of the input's shape; the call (name, args) is recorded as
+# ghost state so that contracts can state with which pixel-unit parameters the library was invoked ----------------
+def _ndi_recorded(name, kind="real"):
+    def f(input, *args, **kwargs):
+        a = A.from_nested(input)
+        res = _uf_array("ndi_" + name, a.shape, kind)
+        GHOST.setdefault("ndi", []).append((name, res, (input,) + tuple(args), dict(kwargs)))
+        return res
+    return f
+
+
+for _nm, _k in (("binary_erosion", "bool"), ("binary_dilation", "bool"), ("binary_opening", "bool"),
+                ("binary_closing", "bool"), ("distance_transform_edt", "real"), ("gaussian_filter", "real"),
+                ("gaussian_laplace", "real"), ("maximum_filter", "real"), ("shift", "real"), ("zoom", "real")):
+    REG["scipy.ndimage." + _nm] = _ndi_recorded(_nm, _k)
+REG["acryo._typed_scipy.shift"] = REG["scipy.ndimage.shift"]
+REG["acryo._typed_scipy.zoom"] = REG["scipy.ndimage.zoom"]
